@@ -1,8 +1,10 @@
 package c10
 
 // A reply the kernel refuses in the middle of a transmit batch.  A raw socket
-// (the rig runs with CAP_NET_RAW) sends a UDP datagram whose SOURCE PORT is 0:
-// the kernel delivers it, but the server's reply to port 0 fails with EINVAL:
+// (the rig runs with CAP_NET_RAW) sends a UDP datagram whose SOURCE ADDRESS is
+// 203.0.113.7 (own IP header) to the listener on 127.0.0.1: the kernel delivers
+// it, but a reply from a loopback-bound socket to a non-loopback address fails
+// with EINVAL:
 // sendmmsg stops at that message, the engine falls back to sending the rest
 // of the batch one by one.  Every other client of the burst must still get
 // exactly one reply (C10: a request that ends without a reply never causes a
@@ -17,6 +19,7 @@ import (
 	"math/rand"
 	"net"
 	"sync"
+	"syscall"
 	"time"
 
 	"github.com/miekg/dns"
@@ -61,19 +64,24 @@ func (b *batchWatch) fn(e *server.VerifUDPEvent) {
 }
 
 func poisonPhase(in *engInput, res *vh.Result, rng *rand.Rand, mk func(int) *udpClient, idx int, uaddr *net.UDPAddr, rounds int) {
-	bad, err := net.ListenPacket("ip4:udp", "127.0.0.1")
+	bad, err := syscall.Socket(syscall.AF_INET, syscall.SOCK_RAW, syscall.IPPROTO_RAW) // implies IP_HDRINCL
 	if err != nil {
 		res.Count("poison_unavailable", 1)
 		return
 	}
-	defer bad.Close()
-	dst := &net.IPAddr{IP: uaddr.IP}
-	fromPort0 := func(payload []byte) []byte {
-		b := make([]byte, 8+len(payload))
-		binary.BigEndian.PutUint16(b[0:], 0) // source port 0
-		binary.BigEndian.PutUint16(b[2:], uint16(uaddr.Port))
-		binary.BigEndian.PutUint16(b[4:], uint16(len(b)))
-		copy(b[8:], payload) // checksum 0: none (IPv4)
+	defer syscall.Close(bad)
+	var dst syscall.SockaddrInet4
+	copy(dst.Addr[:], uaddr.IP.To4())
+	fromBroadcast := func(payload []byte) []byte {
+		b := make([]byte, 28+len(payload))
+		b[0], b[8], b[9] = 0x45, 64, 17 // IPv4, 5 words; TTL; UDP (length and checksum are the kernel's)
+		binary.BigEndian.PutUint16(b[2:], uint16(len(b)))
+		copy(b[12:16], []byte{203, 0, 113, 7})     // source: not a loopback address
+		copy(b[16:20], uaddr.IP.To4())
+		binary.BigEndian.PutUint16(b[20:], 4242) // an ordinary source port
+		binary.BigEndian.PutUint16(b[22:], uint16(uaddr.Port))
+		binary.BigEndian.PutUint16(b[24:], uint16(8+len(payload)))
+		copy(b[28:], payload) // UDP checksum 0: none (IPv4)
 		return b
 	}
 	const ngood = 6
@@ -126,13 +134,13 @@ func poisonPhase(in *engInput, res *vh.Result, rng *rand.Rand, mk func(int) *udp
 		}
 		var out []sent
 		var wires [][]byte
-		var from []*net.UDPConn // nil = the port-0 sender
+		var from []*net.UDPConn // nil = the spoofing sender
 		gi := 0
 		for i := 0; i < 9; i++ {
 			id := alloc()
 			q := hit(id, rng.Intn(8))
 			if pois[i] {
-				wires, from = append(wires, fromPort0(q.wire)), append(from, nil)
+				wires, from = append(wires, fromBroadcast(q.wire)), append(from, nil)
 				continue
 			}
 			c := good[gi%ngood]
@@ -146,7 +154,7 @@ func poisonPhase(in *engInput, res *vh.Result, rng *rand.Rand, mk func(int) *udp
 		// back to back from one goroutine: they wait in the server's socket buffer together
 		for i := range wires {
 			if from[i] == nil {
-				_, _ = bad.WriteTo(wires[i], dst)
+				_ = syscall.Sendto(bad, wires[i], 0, &dst)
 				continue
 			}
 			_, _ = from[i].WriteToUDP(wires[i], uaddr)
